@@ -1147,6 +1147,11 @@ func (w *World) finish() {
 		w.lst.Close()
 	}
 	pump()
+	// a key that was expired lazily leaves its timer behind (the table entry is gone,
+	// the goroutine waits for its instant, at most a second away): let that instant
+	// come, or the goroutine outlives the run with everything it references
+	time.Sleep(1500 * time.Millisecond)
+	pump()
 }
 
 // simListener is the net.Listener the real server.Start accepts from when the
